@@ -162,17 +162,36 @@ Lemma cp_stops_exact_and_not_late_partial c s report sched orc st s' rest us :
   st = StartOfContinuousInterval \/ st = ReachedStepLimit \/ cret_ok c report sched st s'.
 Proof.
   intros H Hp Hn. unfold stepToC in H.
-  destruct (c_comm s) eqn:Ec; try discriminate;
-  (destruct (match c_comm s with RetNoEvent => ge_final c (tStateC s) | _ => false end) eqn:E0;
-   [rewrite Ec in E0; try discriminate; inversion H; subst; right; right; unfold cret_ok; simpl; repeat split; intros; discriminate|]);
-  rewrite Ec in E0; rewrite ?E0 in H;
-  (destruct (c_startCI s); [inversion H; subst; left; reflexivity|]); right;
-  cbv zeta in H; simpl c_pending in H;
-  (destruct (c_pending s) as [r|] eqn:Epd;
-   [ match type of H with context[after_cstep ?a ?b ?cc ?d ?e ?f ?g ?h] => destruct (after_cstep a b cc d e f g h) eqn:E end; try discriminate;
-     [ inversion H; subst; eapply after_cstep_nonroot; [reflexivity| | | |exact E]; simpl; auto; try reflexivity; congruence
-     | apply after_cstep_continue in E; subst; eapply cloop_ret; eauto ]
-   | eapply cloop_ret; eauto ]).
+  assert (EOS: forall x, COk (EndOfSimulation, x, orc, []) = COk (st, s', rest, us) ->
+               c_comm x = FinalReturned -> st = StartOfContinuousInterval \/ st = ReachedStepLimit \/ cret_ok c report sched st s').
+  { intros x Hx Hc. inversion Hx; subst. right; right. unfold cret_ok. repeat split; intros; try discriminate; auto. }
+  assert (REST: (if c_startCI s
+       then COk (StartOfContinuousInterval, set_flags s (c_comm s) (c_interp s) false None (c_tstop s), orc, [])
+       else
+         let tMax := qmin report sched in
+         let isFake := negb (allowInterp c) && match finalT c with None => true | Some f => qlt tMax f end in
+         let ts := if allowInterp c then c_tstop s else if isFake then Some tMax else finalT c in
+         let s0 := set_flags s (c_comm s) false (c_startCI s) (c_pending s) ts in
+         match c_pending s0 with
+         | Some r =>
+             let s1 := set_adv s0 (c_prevRet s0) None (c_prevRet s0) in
+             match after_cstep c report sched tMax s1 r (c_prevRet s0) true with
+             | CReturn st s' => COk (st, s', orc, [])
+             | CFail => CStepFailed
+             | CContinue s' => cloop c report sched tMax isFake s' orc
+             end
+         | None => cloop c report sched tMax isFake s0 orc
+         end) = COk (st, s', rest, us) ->
+       st = StartOfContinuousInterval \/ st = ReachedStepLimit \/ cret_ok c report sched st s').
+  { clear H EOS. intros H. destruct (c_startCI s); [inversion H; subst; left; reflexivity|]. right.
+    cbv zeta in H. simpl c_pending in H. simpl c_prevRet in H.
+    destruct (c_pending s) as [r|] eqn:Epd.
+    - match type of H with context[after_cstep ?a ?b ?cc ?d ?e ?f ?g ?h] => destruct (after_cstep a b cc d e f g h) eqn:E end; try discriminate.
+      + inversion H; subst. eapply after_cstep_nonroot; [reflexivity| | | |exact E]; simpl; auto; try reflexivity; congruence.
+      + apply after_cstep_continue in E. subst. eapply cloop_ret; eauto.
+    - eapply cloop_ret; eauto. }
+  destruct (c_comm s) eqn:Ec; try discriminate; try (apply REST; exact H).
+  destruct (ge_final c (tStateC s)); [eapply EOS; [exact H|reflexivity]|apply REST; exact H].
 Qed.
 
 (** DESIGN 7.18 (b): with return-every-step (OneStep mode) CPODES returns the end of its internal step, beyond
